@@ -173,6 +173,7 @@ func (x *Unit) run() {
 			x.oblige(ret, "ensures", clauseLabel(cl, i), g.T, nil)
 		}
 		x.frameCheck(ret, "frame", nil)
+		x.capturedCheck(ret)
 	} else if len(x.block.ClausesOf("ensures")) > 0 && len(x.unsupported) == 0 {
 		// no normal exit at all: contracts about results are vacuous; say so loudly
 		x.unsupported = append(x.unsupported, "function has no reachable normal exit")
@@ -369,5 +370,44 @@ func (x *Unit) frameAssume(st *State) {
 		body := g.at(q)
 		x.binders--
 		x.assume(st, T{fmt.Sprintf("(forall ((%s %s)) %s)", q.S, q.Sort, body.S), SBool})
+	}
+}
+
+// capturedCheck: a function literal whose contract declares a frame must leave the variables it captures unchanged
+// unless they are listed (a closure shared between goroutines that assigns its captured variables keeps state between calls).
+func (x *Unit) capturedCheck(ret *State) {
+	if x.lit == nil {
+		return
+	}
+	if _, ok := x.frameGoals(ret); !ok {
+		return
+	}
+	listed := map[types.Object]bool{}
+	for _, cl := range x.block.Clauses {
+		if cl.Kind != "modifies" {
+			continue
+		}
+		for _, m := range cl.Mods {
+			if id, ok := m.(*ast.Ident); ok {
+				if o := x.lookupLocal(x.entry, id.Name, x.contractCtx(x.entry, nil)); o != nil {
+					listed[o] = true
+				}
+			}
+		}
+	}
+	for o, v := range ret.env {
+		if o.Pos() >= x.lit.Pos() && o.Pos() <= x.lit.End() {
+			continue // the literal's own parameters and locals
+		}
+		if _, isVar := o.(*types.Var); !isVar || listed[o] || !o.Pos().IsValid() {
+			continue
+		}
+		e0, had := x.entry.env[o]
+		switch {
+		case !had:
+			x.oblige(ret, "captured", o.Name()+" is assigned", False, nil)
+		case e0.S != v.S:
+			x.oblige(ret, "captured", o.Name()+" unchanged", Eq(e0.T, v.T), nil)
+		}
 	}
 }
